@@ -121,8 +121,9 @@ def postOracle (args : List String) : Option Bool :=
       if !(fin n) then pure true else
       pure (forallIO (v3sOf m name) (v3sOf o name)
         (fun i o' => closeS (dot o' o') (n * n * dot i i) (n * n * dot i i))               -- |q|⁴·|v|²
-        (fun i1 o1 i2 o2 => closeS (dot (o1.Sub o2) (o1.Sub o2)) (n * n * dot (i1.Sub i2) (i1.Sub i2))
-                              (n * n * (dot i1 i1 + dot i2 i2))))
+        (fun i1 o1 i2 o2 =>                              -- distances, with room for the cancellation in o1 - o2
+          let e := Float.sqrt (n * n * dot (i1.Sub i2) (i1.Sub i2))
+          closeS (Float.sqrt (dot (o1.Sub o2) (o1.Sub o2))) e (e + 1e-3 * (mag o1 + mag o2))))
   | "applytrs" :: ts => do
       let (_, ts) ← pV3 ts; let (qv, ts) ← pV3 ts; let (qw, ts) ← pFloat ts; let (sc, ts) ← pV3 ts
       let (m, ts) ← pMesh ts; let (o, _) ← pMesh ts
@@ -131,8 +132,9 @@ def postOracle (args : List String) : Option Bool :=
       pure (forallIO (v3sOf m "Position") (v3sOf o "Position") (fun _ _ => true)
         (fun i1 o1 i2 o2 =>
           let dv := sc.MultByVector (i1.Sub i2)
-          closeS (dot (o1.Sub o2) (o1.Sub o2)) (n * n * dot dv dv)
-            (n * n * (mag sc) * (mag sc) * (dot i1 i1 + dot i2 i2))))
+          let e := Float.sqrt (n * n * dot dv dv)
+          -- the translation cancels in o1 - o2: allow 1e-12 of the output magnitudes
+          closeS (Float.sqrt (dot (o1.Sub o2) (o1.Sub o2))) e (e + 1e-3 * (mag o1 + mag o2))))
   | "center" :: ts => do
       let (name, ts) ← pTok ts
       let (m, ts) ← pMesh ts; let (o, _) ← pMesh ts
